@@ -18,7 +18,7 @@
 From Coq Require Import String List Bool NArith Lia.
 Import ListNotations.
 From Omega Require Import L6Past.PastSyntax L6Past.PastModel L6Past.PastSpec
-  L6Past.PastProofs.
+  L6Past.PastProofs L6Past.PastUntil L6Past.PastUntilProofs.
 Open Scope string_scope.
 
 (* ---------------------------------------------------------------- main *)
@@ -158,9 +158,86 @@ Example C15_fixed_F5_F10 :
   x_formula (translate true false (FPrevS (FConst true))) = TVar "_aux0".
 Proof. split; reflexivity. Qed.
 
+
+(* ------------------------------------------------- until = True (prophecy) *)
+(* The full statement for translate(..., until=True) over the whole language
+   (past operators, [] <> U): over an infinite sequence, with the recurrence
+   goals `win` holding infinitely often, exactly one solution, and under it
+   the translated formula is equivalent to the original at every position. *)
+Definition C15_until_full : Prop :=
+  forall f : form,
+  let X := translate true true f in
+  no_clash f (x_names X) ->
+  forall sigma : nat -> env,
+  exists alpha : nat -> env,
+    is_solution_inf X sigma alpha /\
+    (forall alpha', is_solution_inf X sigma alpha' ->
+       forall i v, In v (x_names X) -> alpha' i v = alpha i v) /\
+    (forall alpha', is_solution_inf X sigma alpha' ->
+       forall i, eval (comb (x_names X) sigma alpha' i) (x_formula X) = true
+                 <-> holds f sigma i).
+
+(* Proved part: uniqueness and correctness of every fair solution, and that
+   the values of the tracked formulas form a fair solution.  What is missing
+   for C15_until_full is only that those values exist as a Boolean sequence
+   for EVERY sigma (truth of [] <> U on an arbitrary infinite sequence is not
+   decidable; it would need excluded middle and unique choice). *)
+Theorem C15_until_partial : forall f : form,
+  let X := translate true true f in
+  no_clash f (x_names X) ->
+  forall sigma : nat -> env,
+    (forall alpha, reflects (x_testers X) sigma alpha ->
+                   is_solution_inf X sigma alpha) /\
+    (forall alpha, is_solution_inf X sigma alpha ->
+       reflects (x_testers X) sigma alpha /\
+       forall i, eval (comb (x_names X) sigma alpha i) (x_formula X) = true
+                 <-> holds f sigma i) /\
+    (forall alpha1 alpha2,
+       is_solution_inf X sigma alpha1 -> is_solution_inf X sigma alpha2 ->
+       forall i v, In v (x_names X) -> alpha1 i v = alpha2 i v).
+Proof. exact translate_until_partial. Qed.
+
+(* the full statement holds on every sequence whose semantics is decidable *)
+Theorem C15_until_partial_exists : forall f : form,
+  let X := translate true true f in
+  no_clash f (x_names X) ->
+  forall sigma : nat -> env,
+    (forall g i, {holds g sigma i} + {~ holds g sigma i}) ->
+    exists alpha, is_solution_inf X sigma alpha.
+Proof. exact translate_until_exists. Qed.
+
+(* non-vacuity: (-X p) U q on the all-false sequence; the prophecy variable
+   is false forever, the history variable true in the first state only *)
+Example C15_until_hypotheses_satisfiable :
+  let f := FUntil (FPrevW ex_p) ex_q in
+  let X := translate true true f in
+  x_names X = ["p_prev1"; "_aux1"] /\
+  no_clash f (x_names X) /\
+  exists alpha, reflects (x_testers X) sig0 alpha /\
+                is_solution_inf X sig0 alpha.
+Proof.
+  cbv zeta. split; [reflexivity|]. split; [no_clash_tac|].
+  set (alpha := fun (i : nat) (v : string) =>
+                  if String.eqb v "p_prev1" then Nat.eqb i 0 else false).
+  assert (R : reflects
+                (x_testers (translate true true (FUntil (FPrevW ex_p) ex_q)))
+                sig0 alpha).
+  { intros t Ht i. vm_compute in Ht. destruct Ht as [<-|[<-|[]]].
+    - simpl t_name. simpl t_tracks. unfold alpha. simpl String.eqb.
+      destruct i; simpl; split; intros H; try discriminate; auto.
+      specialize (H i eq_refl). discriminate.
+    - simpl t_name. simpl t_tracks. unfold alpha. simpl String.eqb.
+      split; [discriminate|]. intros [j [_ [H _]]]. discriminate. }
+  exists alpha. split; [exact R|].
+  apply (proj1 (translate_until_partial (FUntil (FPrevW ex_p) ex_q)
+                  ltac:(no_clash_tac) sig0)). exact R.
+Qed.
+
 Print Assumptions C15_past_exact.
 Print Assumptions C15_user_names_suffice.
 Print Assumptions C15_testers_track.
 Print Assumptions C15_sem_declarative.
 Print Assumptions C15_generated_names_distinct.
 Print Assumptions C15_until_flag_irrelevant.
+Print Assumptions C15_until_partial.
+Print Assumptions C15_until_partial_exists.
